@@ -1,7 +1,61 @@
-import TonVerif.Model.Message
-namespace TonVerif.Properties.C15
-open TonVerif TonVerif.Spec.Tlb
+/-
+C15 -- messages, state-inits and currency values serialise per block.tlb and round-trip.
 
-/-- temporary: replaced below by the real theorems -/
-theorem c15_nbytes_zero : nbytes 0 = 0 := by simp [nbytes]
+`Model.Message.*` mirrors `MessageAny`, the three `CommonMsgInfo` classes, `StateInit`, `TickTock`,
+`CurrencyCollection` of pytoniq-core (after the fix of F17); `Spec.Tlb.*` is the independent reading of
+block.tlb (encoder with both `Either` choices free, decoder `decodeMessage`).  Cells are abstract:
+`ops.make` = `end_cell` (may refuse: depth), `ops.view` = bits and refs of a cell; `Lawful` = `view ∘ make = id`,
+`Total` = every cell with at most 1023 bits and 4 refs exists (no depth overflow).
+-/
+import TonVerif.Proofs.Message
+
+namespace TonVerif.Properties.C15
+open TonVerif TonVerif.Model TonVerif.Spec.Tlb TonVerif.Proofs.Message
+
+variable {R : Type}
+
+/-- **Serialising never fails for lack of room.**  For every message whose header encodes (all amounts and
+addresses in range) into `ib` bits with `ib + 3 ≤ 1023` (`ib + 2` without a state-init), every state-init with
+a split depth in range and every body cell (any 0..1023 bits, 0..4 refs), `MessageAny.serialize` returns a
+cell: parts that do not fit inline are moved into references.  (The only other way to fail is a cell deeper
+than 1023, excluded by `Total`.) -/
+theorem c15_never_overflows (ops : CellOps R) (hl : ops.Lawful) (ht : ops.Total) (m : Msg R)
+    {ib : Bits} {ir : List R} (hinfo : encInfo m.info = some (ib, ir))
+    (hI : ib.length + (if m.init.isSome then 3 else 2) ≤ 1023)
+    (hinit : ∀ s, m.init = some s → (encStateInit s).isSome)
+    (hbody : m.body.1.length ≤ 1023 ∧ m.body.2.length ≤ 4) :
+    (Message.serialize ops m).isSome := by
+  obtain ⟨i, b, c, _, hs⟩ := serialize_cases ops hl ht m hinfo hI hinit hbody
+  simp [hs]
+
+/-- ... and what it returns is one of the (up to four) block.tlb encodings of the message -/
+theorem c15_serialize_is_spec_encoding (ops : CellOps R) (hl : ops.Lawful) (ht : ops.Total) (m : Msg R)
+    {ib : Bits} {ir : List R} (hinfo : encInfo m.info = some (ib, ir))
+    (hI : ib.length + (if m.init.isSome then 3 else 2) ≤ 1023)
+    (hinit : ∀ s, m.init = some s → (encStateInit s).isSome)
+    (hbody : m.body.1.length ≤ 1023 ∧ m.body.2.length ≤ 4) :
+    ∃ initRef bodyRef c, Message.serialize ops m = some c ∧ encMessage ops m initRef bodyRef = some c := by
+  obtain ⟨i, b, c, he, hs⟩ := serialize_cases ops hl ht m hinfo hI hinit hbody
+  exact ⟨i, b, c, hs, he⟩
+
+/-- the stand-alone `StateInit.serialize` never fails (12 bits, 3 refs at most) and is the spec encoding -/
+theorem c15_state_init_serialize (ops : CellOps R) (ht : ops.Total) (s : StateInit R) {sc : Chunk R}
+    (h : encStateInit s = some sc) :
+    sc.1.length ≤ 12 ∧ sc.2.length ≤ 3 ∧ Message.serializeStateInit ops s = ops.make sc.1 sc.2 ∧
+      (Message.serializeStateInit ops s).isSome := by
+  have hsz := size_encStateInit s
+  obtain ⟨e1, e2⟩ := enc_some_sizes h
+  rw [e1, e2] at hsz
+  have hrun := ((appends_stateInitB s).run h).1 (by omega)
+  have : Message.serializeStateInit ops s = ops.make sc.1 sc.2 := by
+    simp [Message.serializeStateInit, Message.cellOf, Message.runB, hrun]
+  exact ⟨hsz.1, hsz.2, this, this ▸ ht _ _ (by omega) (by omega)⟩
+
+/-- the stand-alone `CurrencyCollection.serialize` is the spec encoding whenever the amount is a `Grams` -/
+theorem c15_currency_serialize (ops : CellOps R) (c : Currency R) {cc : Chunk R}
+    (h : encCurrency c = some cc) (hfit : cc.1.length ≤ 1023 ∧ cc.2.length ≤ 4) :
+    Message.serializeCurrency ops c = ops.make cc.1 cc.2 := by
+  have hrun := ((appends_currencyB c).sub.run h).1 hfit
+  simp [Message.serializeCurrency, Message.cellOf, Message.runB, hrun]
+
 end TonVerif.Properties.C15
